@@ -208,7 +208,7 @@ def r_kind(ctx, rule='R-KIND'):
                         core = strip(a0[1]) if a0[0] == 'field' else ('unknown',)
                         while core[0] in ('try', 'downcast') or (core[0] == 'field' and core[2] == '0'):
                             core = strip(core[1])
-                        if 'D' in ks and a0[0] == 'field' and a0[2] == 'item' and core[0] in ('var', 'phi', 'arg', 'field'):
+                        if 'D' in ks and a0[0] == 'field' and a0[2] == 'item' and core[0] in ('var', 'phi', 'arg', 'field') and f.path.startswith(('writer::', 'parallel::')):
                             # `x.item` of a link whose kind is only known from `x.mode`: the sink needs a dominating test of that very node
                             ctx.bad(rule, key + '/unguarded', c.loc(), '`%s(%s)` in `%s` uses the id of a node link as %s id without a dominating test of that link\'s own mode: when the link is %s the wrong entry is addressed' % (
                                 short(c.callee), show(a0)[:60], f.path, 'an item' if want == 'I' else 'a tree-node', 'a tree node' if want == 'I' else 'a bare item'))
@@ -534,6 +534,34 @@ def r_batch_sets(ctx, rule='R-BATCH-SETS'):
         ctx.check(got == 'L', rule, be.path + '/new-tree-set', c.loc(), 'a tree created from scratch starts from every live id',
                   'a new tree created by `%s` does not start from the full live item set (%s): it would never cover the other items' % (be.path, got))
     ctx.floor(rule, 'from-scratch tree creations in the build entry', n, 1)
+
+
+# --------------------------------------------------------------------------- R-FULL-SCAN
+LOSSY_ADAPTORS = ('Iterator::take', 'Iterator::skip', 'Iterator::step_by', 'Iterator::take_while', 'Iterator::skip_while', 'Iterator::filter',
+                  'Iterator::filter_map', 'Iterator::nth', 'Iterator::map_while', 'Iterator::scan', 'Iterator::peekable')
+
+
+def r_full_scan(ctx, rule='R-FULL-SCAN'):
+    """the scans the build relies on (tree-node snapshot, used ids, live items, updated marks, wipes, upgrades) visit every
+    entry of their prefix: no truncating or filtering adaptor sits between the LMDB cursor and its consumer"""
+    F = ctx.F
+    n = 0
+    for f in F.lib_fns():
+        if not f.path.startswith(('writer::', 'parallel::', 'upgrade::', 'distance::')):
+            continue
+        for c in f.calls():
+            if not c.args or not c.callee.endswith(('Iterator::next', 'Iterator::try_fold', 'Iterator::fold', 'Iterator::for_each', 'Iterator::try_for_each',
+                                                    'Iterator::collect', 'Extend::extend', 'Iterator::count', 'Iterator::last')):
+                continue
+            t = c.arg_term(1) if c.callee.endswith('Extend::extend') and len(c.args) > 1 else c.arg_term(0)
+            names = [x[1] for x in walk(t) if x[0] == 'call']
+            if not any(nm.startswith('heed::') and ('prefix_iter' in nm or nm.endswith(('::iter', '::range', '::rev_range', '::iter_mut', '::range_mut', '::rev_iter'))) for nm in names):
+                continue
+            n += 1
+            lossy = sorted({short(nm) for nm in names if nm.endswith(LOSSY_ADAPTORS)})
+            ctx.check(not lossy, rule, '%s/scan#%d' % (f.path, n), c.loc(), 'the cursor is consumed entry by entry',
+                      'the database scan in `%s` goes through %s: entries of the prefix can be skipped (a snapshot, id set or wipe built from it would be incomplete)' % (f.path, lossy))
+    ctx.floor(rule, 'database scans in the writer / parallel / upgrade code', n, 8)
 
 
 # --------------------------------------------------------------------------- R-FRESH
@@ -1181,6 +1209,20 @@ def r_progress(ctx, rule='Q-PROGRESS'):
                             if t0[0] == 'arg' and T.local_ty(t0[1]) == 'bool':
                                 gs.append((t0[1], e[2]))
                     site_guards.append((c, gs))
+        # the constructor's own recursive calls work on strict subsets that may be tiny or empty: they must re-enable the
+        # bucket shortcut (pass the constant that allows it), otherwise a forced split recurses into sets no plane can divide
+        guard_params = {}
+        for bc, gs in site_guards:
+            for pl, need in gs:
+                guard_params.setdefault(pl, need)
+        for c in T.calls():
+            if c.callee == T.path:
+                for pl, need in guard_params.items():
+                    v = const_eval(c.arg_term(pl - 1))
+                    ctx.check(v is not None and bool(v) == need, rule, '%s/recursive-call@%s' % (short(T.path), c.loc().split(':')[-2] if ':' in c.loc() else c.bb), c.loc(),
+                              'the recursion lets a fitting subset become one bucket',
+                              'a recursive call of `%s` keeps forcing a split (%s is not the constant %s): subsets of one batch are split down to single items and an empty side makes the split routine fail' % (
+                                  T.path, T.local_name(pl), str(need).lower()))
         for W in F.lib_fns():
             if not W.path.startswith('writer::Writer') or W.path == T.path:
                 continue
